@@ -4,9 +4,10 @@
 // optionally cut into random TCP writes), net/http clients (http and https) and nbhttp.Client (http and https), many
 // concurrent connections of both kinds, a deterministic handler whose answer is a function of the request
 // (connection id, request index, size, framing), sizes straddling the 64 KiB thresholds.
-//  oracle (implementation alone): per connection exactly one response per request, in request order, each with the
-//  bytes belonging to that request (no byte of another connection), connection kept open / closed as the request
-//  version and Connection header dictate; every nbhttp.Client callback exactly once with the matching response.
+//
+//	oracle (implementation alone): per connection exactly one response per request, in request order, each with the
+//	bytes belonging to that request (no byte of another connection), connection kept open / closed as the request
+//	version and Connection header dictate; every nbhttp.Client callback exactly once with the matching response.
 package main
 
 import (
@@ -54,6 +55,18 @@ func handler(w http.ResponseWriter, req *http.Request) {
 	if d, _ := strconv.Atoi(q.Get("d")); d > 0 {
 		time.Sleep(time.Duration(d) * time.Millisecond) // handlers of different connections overlap
 	}
+	if q.Get("m") == "hijack" {
+		// the handler takes the connection over (what a protocol upgrade does), answers by itself and closes
+		if hj, ok := w.(http.Hijacker); ok {
+			if hc, _, err := hj.Hijack(); err == nil {
+				hc.Write([]byte(fmt.Sprintf("HTTP/1.1 200 OK\r\nX-Id: %d-%d\r\nContent-Length: 2\r\nConnection: close\r\n\r\nhj", c, i)))
+				hc.Close()
+				return
+			}
+		}
+		w.WriteHeader(500)
+		return
+	}
 	body := pattern(c, i, n)
 	w.Header().Set("X-Id", fmt.Sprintf("%d-%d", c, i))
 	w.Header().Set("X-Req-Body", fmt.Sprint(len(rb)))
@@ -74,7 +87,7 @@ func handler(w http.ResponseWriter, req *http.Request) {
 
 type quiet struct{}
 
-func (quiet) SetLevel(int)                  {}
+func (quiet) SetLevel(int)                 {}
 func (quiet) Debug(string, ...interface{}) {}
 func (quiet) Info(string, ...interface{})  {}
 func (quiet) Warn(string, ...interface{})  {}
@@ -349,6 +362,34 @@ func runCell(rep *hx.Report, r *rand.Rand, iomod int, emode int, nconn, ntls int
 		}
 	}()
 	rep.Stat("aborted-exchanges-under-load")
+	// exchanges whose handler HIJACKS the connection, next to the ordinary ones: an object that served a hijacked exchange
+	// must not carry that state into a later ordinary exchange (pooled responses), on any connection
+	nhijack := 4 + r.Intn(6)
+	var hijackErr atomic.Value
+	wg.Add(1)
+	go func() {
+		defer wg.Done()
+		for k := 0; k < nhijack; k++ {
+			hc, err := net.DialTimeout("tcp", addr, 3*time.Second)
+			if err != nil {
+				continue
+			}
+			hc.Write([]byte(fmt.Sprintf("GET /r?c=%d&i=0&n=0&m=hijack HTTP/1.1\r\nHost: x\r\n\r\n", 2000+k)))
+			hc.SetReadDeadline(time.Now().Add(10 * time.Second))
+			resp, err := http.ReadResponse(bufio.NewReader(hc), &http.Request{Method: "GET"})
+			if err != nil {
+				hijackErr.Store(fmt.Sprintf("hijacked exchange %d: no answer from the hijacking handler: %v", k, err))
+			} else {
+				b, _ := io.ReadAll(resp.Body)
+				if resp.Header.Get("X-Id") != fmt.Sprintf("%d-0", 2000+k) || string(b) != "hj" {
+					hijackErr.Store(fmt.Sprintf("hijacked exchange %d: wrong answer X-Id=%q body=%q", k, resp.Header.Get("X-Id"), b))
+				}
+			}
+			hc.Close()
+			time.Sleep(time.Duration(r.Intn(5)) * time.Millisecond)
+		}
+	}()
+	rep.Stat("hijacked-exchanges-under-load")
 	// net/http clients in parallel on the same server
 	var httpErr, httpsErr atomic.Value
 	tr, trTLS := &http.Transport{MaxIdleConnsPerHost: 4}, tlsTransport()
@@ -411,6 +452,9 @@ func runCell(rep *hx.Report, r *rand.Rand, iomod int, emode int, nconn, ntls int
 			rep.Add(hx.Finding{Kind: "oracle", Property: "C10", Signature: sig, What: x.what,
 				Replay: map[string]interface{}{"harness": "httpe2e", "config": c, "connection": x.c, "transport": x.tr, "requests": x.specs, "server_conn_table": dump}})
 		}
+	}
+	if v := hijackErr.Load(); v != nil {
+		rep.Add(hx.Finding{Kind: "oracle", Property: "C10", Signature: "hijacked-exchange", What: v.(string), Replay: map[string]interface{}{"harness": "httpe2e", "config": c}})
 	}
 	if v := httpErr.Load(); v != nil {
 		rep.Add(hx.Finding{Kind: "oracle", Property: "C10", Signature: "nethttp-client", What: v.(string), Replay: map[string]interface{}{"harness": "httpe2e", "config": c}})
@@ -560,7 +604,7 @@ func clientTLS13Probe(rep *hx.Report) bool {
 		time.Sleep(50 * time.Millisecond)
 		if n := atomic.LoadInt32(&count); n != 1 {
 			rep.Add(hx.Finding{Kind: "oracle", Property: "C10", Signature: "tls-client-callback-twice",
-				What: fmt.Sprintf("nbhttp.Client TLS 1.3 probe: the callback of one request ran %d times (first: %s)", n, got),
+				What:   fmt.Sprintf("nbhttp.Client TLS 1.3 probe: the callback of one request ran %d times (first: %s)", n, got),
 				Replay: map[string]interface{}{"harness": "httpe2e", "part": "nbhttp.Client TLS 1.3 probe", "request": "GET https://<server>" + u.RequestURI()}})
 		}
 		rep.Extra["tls13_probe"] = got
